@@ -67,6 +67,8 @@ type loopInfo struct {
 }
 
 type retInfo struct {
+	block   *ssa.BasicBlock
+	idx     int
 	pos     token.Pos
 	guard   string
 	results []Val
@@ -121,6 +123,10 @@ type FnGen struct {
 	obNames   map[string]int
 	cellVars  map[string]Val // source variables that live in heap cells (captured by closures)
 	allAllocs []string
+	heapDefs  map[string][3]string
+	heapItes  map[string][3]string
+	allocSet  map[string]bool
+	paramSet  map[string]bool
 	covers  []*Cover
 
 	parent      *FnGen // non-nil while symbolically executing an inlined callee
@@ -158,7 +164,92 @@ func (g *FnGen) emitDef(text string) {
 func (g *FnGen) def(prefix, sort, term string) string {
 	n := g.D.fresh(prefix)
 	g.emitDef(fmt.Sprintf("(define-fun %s () %s %s)", n, sort, term))
+	if strings.HasPrefix(term, "(ite ") && strings.HasPrefix(sort, "(Array Ref") {
+		r := g.root()
+		if r.heapItes == nil {
+			r.heapItes = map[string][3]string{}
+		}
+		if c, a, b, ok := splitStore("(store " + term[5:]); ok {
+			r.heapItes[n] = [3]string{c, a, b}
+		}
+	}
+	if strings.HasPrefix(term, "(store ") {
+		r := g.root()
+		if r.heapDefs == nil {
+			r.heapDefs = map[string][3]string{}
+		}
+		if a, i, v, ok := splitStore(term); ok {
+			r.heapDefs[n] = [3]string{a, i, v}
+		}
+	}
 	return n
+}
+
+// splitStore parses "(store A I V)" into its three top-level arguments.
+func splitStore(t string) (string, string, string, bool) {
+	if !strings.HasPrefix(t, "(store ") || !strings.HasSuffix(t, ")") {
+		return "", "", "", false
+	}
+	body := t[7 : len(t)-1]
+	var parts []string
+	depth, start := 0, 0
+	for i := 0; i < len(body); i++ {
+		switch body[i] {
+		case '(':
+			depth++
+		case ')':
+			depth--
+		case ' ':
+			if depth == 0 {
+				parts = append(parts, body[start:i])
+				start = i + 1
+			}
+		}
+	}
+	parts = append(parts, body[start:])
+	if len(parts) != 3 {
+		return "", "", "", false
+	}
+	return parts[0], parts[1], parts[2], true
+}
+
+// hsel is select with store-forwarding through the heap versions this generator defined: reading
+// the index that was just written yields the written value, and a freshly allocated reference is
+// known to differ from every other allocation and from the parameters.
+func (g *FnGen) hsel(arr, idx string) string {
+	r := g.root()
+	for n := 0; n < 64; n++ {
+		if it, ok := r.heapItes[arr]; ok {
+			a, b := g.hsel(it[1], idx), g.hsel(it[2], idx)
+			return ite(it[0], a, b)
+		}
+		d, ok := r.heapDefs[arr]
+		if !ok {
+			break
+		}
+		if d[1] == idx {
+			return d[2]
+		}
+		if !r.knownDistinct(d[1], idx) {
+			break
+		}
+		arr = d[0]
+	}
+	return sel(arr, idx)
+}
+
+func (g *FnGen) knownDistinct(a, b string) bool {
+	if a == b {
+		return false
+	}
+	ia, ib := g.allocSet[a], g.allocSet[b]
+	if ia && ib {
+		return true
+	}
+	if (ia && g.paramSet[b]) || (ib && g.paramSet[a]) {
+		return true
+	}
+	return false
 }
 
 func (g *FnGen) freshConst(prefix, sort string) string {
@@ -421,9 +512,9 @@ func (g *FnGen) loadPlace(st State, p *Place) string {
 	case p.Base == "":
 		t = arr
 	case p.Idx != "":
-		t = sel(sel(arr, p.Base), p.Idx)
+		t = sel(g.hsel(arr, p.Base), p.Idx)
 	default:
-		t = sel(arr, p.Base)
+		t = g.hsel(arr, p.Base)
 	}
 	for _, s := range p.Path {
 		info := g.D.structInfo[s.structSort]
@@ -496,7 +587,7 @@ func (g *FnGen) loadStruct(st State, ref string, t types.Type) string {
 	var parts []string
 	for i := 0; i < s.NumFields(); i++ {
 		k, _ := g.D.fieldKey(t, i)
-		parts = append(parts, sel(g.D.get(st, k), ref))
+		parts = append(parts, g.hsel(g.D.get(st, k), ref))
 	}
 	return "(mk_" + sortName + " " + strings.Join(parts, " ") + ")"
 }
